@@ -61,19 +61,52 @@ func genFileBlock(r *Rng, legacy bool) *pbbstream.Block {
 	if r.Intn(6) > 0 {
 		b.Timestamp = timestamppb.New(time.Unix(int64(r.Intn(2000000000)), int64(r.Intn(1000000000))))
 	}
-	pl := make([]byte, r.Intn(60))
-	for i := range pl {
-		pl[i] = byte(r.Intn(256))
+	// payload size: mostly small, sometimes a few hundred bytes to a few KiB, and sometimes chosen so that the
+	// *marshalled* block lands within a few bytes of a power of two (framing code is size-sensitive exactly there)
+	n, target := r.Intn(60), -1
+	switch r.Intn(10) {
+	case 0:
+		n = r.Intn(1500)
+	case 1:
+		n = r.Intn(6000)
+	case 2, 3:
+		target = (1 << (6 + r.Intn(8))) + r.Intn(13) - 6
 	}
-	if legacy {
-		b.PayloadKind = pbbstream.Protocol([]int32{0, 1, 2, 5, 1, 2}[r.Intn(6)])
-		b.PayloadVersion = int32(r.Intn(3))
-		b.PayloadBuffer = pl
-	} else {
-		b.Payload = &anypb.Any{TypeUrl: []string{"type.googleapis.com/sf.test.Block", "t", "type.googleapis.com/sf.ethereum.type.v2.Block"}[r.Intn(3)], Value: pl}
+	kind, ver, tu := pbbstream.Protocol([]int32{0, 1, 2, 5, 1, 2}[r.Intn(6)]), int32(r.Intn(3)),
+		[]string{"type.googleapis.com/sf.test.Block", "t", "type.googleapis.com/sf.ethereum.type.v2.Block"}[r.Intn(3)]
+	set := func(n int) {
+		pl := make([]byte, n)
+		for i := range pl {
+			pl[i] = byte(1 + (i*7+n)%255)
+		}
+		if n > 0 {
+			pl[0] = byte(r.Intn(256))
+		}
+		if legacy {
+			b.PayloadKind, b.PayloadVersion, b.PayloadBuffer = kind, ver, pl
+		} else {
+			b.Payload = &anypb.Any{TypeUrl: tu, Value: pl}
+		}
+	}
+	set(n)
+	for k := 0; target >= 0 && k < 4; k++ {
+		d := target - proto.Size(b)
+		if d == 0 || n+d < 0 {
+			break
+		}
+		n += d
+		set(n)
+	}
+	if target >= 0 {
+		fileBlockNearPow2++
+	}
+	if proto.Size(b) > 400 {
+		fileBlockLarge++
 	}
 	return b
 }
+
+var fileBlockNearPow2, fileBlockLarge int
 
 // oracleFor splits a (possibly damaged) file with the dbin library and decodes every message with proto.Unmarshal.
 func oracleFor(o *Out, file []byte) {
@@ -307,6 +340,8 @@ func suiteDbin(o *Out, r *Rng, n int, tier string) {
 		}
 		runDbinCase(o, fsb, blocks, variants)
 	}
+	o.Stat("dbin.blocks_marshalled_near_power_of_two", int64(fileBlockNearPow2))
+	o.Stat("dbin.blocks_over_400_bytes", int64(fileBlockLarge))
 }
 
 func replayDbin(o *Out, lines []string) {
